@@ -21,7 +21,7 @@ MIN_COUNTERS = {'quick': {'sanitized_children': 150, 'input_snapshots_compared':
 CASE_TIMEOUT = 400
 NPROC = 16
 RULE = ('each case = one radial_solver call in its own sanitized interpreter: (a) every layer stack of 1-2 layers (quick; 1-3 thorough) over {solid,liquid}x{static,dynamic}x'
-        '{compressible,incompressible} INCLUDING liquid surface layers, both nondimensionalize values; (b) one case per argument fault (bad/duplicate/too many solve_for, wrong '
+        '{compressible,incompressible} INCLUDING liquid surface layers, both nondimensionalize values; (b) degree l=1 on every such stack (singular surface systems) and one case per argument fault (bad/duplicate/too many solve_for, wrong '
         'types and lengths, unknown layer type / integrator, <=3 slices, unsorted or too small upper radii, empty / length-1 / non-contiguous arrays, each of the five arrays shorter or longer than the others, NaN/0/negative/inf '
         'in each material array and scalar, degree 0/1/255, rtol/atol 0/negative/NaN, step / RAM budgets 0/1/5, expected_size 0/1, max_step tiny/huge); (c) random pairwise combinations; '
         '(d) lifetime probes; non-trivial = the child produced an outcome record or died (both are observations); distinct by case hash')
@@ -84,6 +84,13 @@ def gen_cases(tier, seed):
         for nd in (True, False) if tier == 'thorough' or fi % 2 == 0 else (True,):
             cases.append({'kind': 'fault', 'stack': base_stacks[fi % (3 if tier == 'thorough' else 2)], 'nondim': nd, 'freq': 1e-5, 'kamata': True, 'fault': f, 'id': k})
             k += 1
+    # degenerate degree (l = 1) on every stack: the surface matrices of some layer types become exactly singular there, which is the
+    # only input-reachable way into the failure branch of the surface solve
+    for n in range(1, nmax + 1):
+        for si, st in enumerate(all_stacks(n)):
+            for nd in ((True, False) if n == 1 else (bool(si % 2),)):
+                cases.append({'kind': 'fault', 'stack': [list(x) for x in st], 'nondim': nd, 'freq': 2e-4, 'kamata': True, 'fault': {'kw': {'degree_l': 1}}, 'id': k})
+                k += 1
     nrand = 40 if tier == 'quick' else 1200
     for i in range(nrand):
         f1, f2 = FAULTS[int(rng.integers(len(FAULTS)))], FAULTS[int(rng.integers(len(FAULTS)))]
